@@ -1,6 +1,6 @@
 """Conformance of the real training-data creator (depccg/tools/data.py: TrainingDataCreator.create_traindata) with
 spec/TrainData.tla, in both directions:
-  spec -> code  every finished run of MCTrainData (a bank of trees, the cuts, the four files) is a vector: the trees are built
+  spec -> code  every finished run of MCTrainData (a bank of trees, the cuts, the six files) is a vector: the trees are built
                 with the public constructors, printed by the real `auto` encoder, the real creator is run on the file and what
                 it wrote is compared with the vector
   code -> spec  random banks of grammar-licensed and arbitrary derivations (mixed-case words, failure placeholders, repeated
@@ -17,7 +17,7 @@ from .tlc import run_tlc, require_clean
 from .trace import validate
 from . import substrate, trees, enc, render_family as rf
 
-VOCAB = ['The', 'the', 'THE', 'dog', 'Dog', 'runs', 'a', 'A', 'Mary', 'saw', 'FAILED', 'failed']
+VOCAB = ['The', 'the', 'THE', 'dog', 'Dog', 'runs', 'a', 'A', 'Mary', 'saw', 'FAILED', 'failed', 'to', 'To', 'I', 'OOR2', 'xOOR3', 'OOR4', 'door', 'doors', 'indoors', '*END*', 'x', 'xx', 'xxx', 'xxxx', 'xxxxx']
 
 
 def flat(t):
@@ -27,7 +27,7 @@ def flat(t):
     def rec(n):
         c = enc.show_cat(n['cat'])
         if n['k'] == 'L':
-            leaves.append([c, n['tok']['word'].lower()])
+            leaves.append([c, n['tok']['word'].lower(), list(n['tok']['word'])])
         elif n['k'] == 'U':
             uns.append([c, enc.show_cat(n['kids'][0]['cat'])])
             rec(n['kids'][0])
@@ -55,14 +55,14 @@ def read_table(path, arity):
     return rows
 
 
-def run_creator(bank_dicts, ccut, wcut):
+def run_creator(bank_dicts, ccut, wcut, acut=None):
     """-> the files the real creator writes for a bank given as tree dicts"""
     from depccg.printer import to_string
     from depccg.tools.data import TrainingDataCreator
     from depccg.tree import ScoredTree
     from pathlib import Path
     real = [[ScoredTree(tree=trees.build_real(t), score=-0.5)] for t in bank_dicts]
-    text = to_string(real, format='auto')
+    text = to_string(real, format='auto') if real else ''                 # an empty bank is an empty file
     d = scratch('traindata')
     path = os.path.join(d, 'bank%d.auto' % os.getpid())
     with open(path, 'w', encoding='utf-8') as f:
@@ -71,14 +71,16 @@ def run_creator(bank_dicts, ccut, wcut):
     os.makedirs(out, exist_ok=True)
     for fn in os.listdir(out):
         os.remove(os.path.join(out, fn))
-    args = types.SimpleNamespace(PATH=Path(path), OUT=Path(out), word_freq_cut=wcut, cat_freq_cut=ccut, afix_freq_cut=wcut)
-    res = {'raised': False, 'why': '', 'target': [], 'words': [], 'seen': [], 'unary': [], 'nsamples': 0}
+    args = types.SimpleNamespace(PATH=Path(path), OUT=Path(out), word_freq_cut=wcut, cat_freq_cut=ccut, afix_freq_cut=wcut if acut is None else acut)
+    res = {'raised': False, 'why': '', 'target': [], 'words': [], 'seen': [], 'unary': [], 'prefixes': [], 'suffixes': [], 'nsamples': 0}
     try:
         TrainingDataCreator.create_traindata(args)
         res['target'] = read_table(os.path.join(out, 'target.txt'), 1)
         res['words'] = read_table(os.path.join(out, 'words.txt'), 1)
         res['seen'] = read_table(os.path.join(out, 'seen_rules.txt'), 2)
         res['unary'] = read_table(os.path.join(out, 'unary_rules.txt'), 2)
+        res['prefixes'] = read_table(os.path.join(out, 'prefixes.txt'), 1)
+        res['suffixes'] = read_table(os.path.join(out, 'suffixes.txt'), 1)
         with open(os.path.join(out, 'traindata.json')) as f:
             res['nsamples'] = len(json.load(f))
     except Exception as e:
@@ -117,7 +119,7 @@ def conformance(tier, rng):
     substrate.load(hook=False)
     rf.set_lang('en')
     runs = []
-    for cfg in ('MCTrainData.cfg', 'MCTrainData_deep.cfg'):
+    for cfg in ('MCTrainData.cfg', 'MCTrainData_deep.cfg', 'MCTrainData_oor.cfg'):
         r = require_clean(run_tlc('MCTrainData.tla', cfg, workers=4, timeout=1200), cfg)
         if r.violated:
             raise Machinery('TrainData.tla: %s violated (%s)' % (r.violated, cfg))
@@ -133,12 +135,12 @@ def conformance(tier, rng):
     # spec -> code
     dev_vec = {}
     for v in vecs:
-        got = run_creator([dict_of_vec_tree(t) for t in v['src']], v['ccut'], v['wcut'])
+        got = run_creator([dict_of_vec_tree(t) for t in v['src']], v['ccut'], v['wcut'], v['acut'])
         bad = []
         if got['raised']:
             bad.append('creator_raised')
         else:
-            for k in ('target', 'words', 'seen', 'unary'):
+            for k in ('target', 'words', 'seen', 'unary', 'prefixes', 'suffixes'):
                 if sorted(map(tuple, got[k])) != sorted(map(tuple, v[k])) or len(got[k]) != len(set(map(tuple, got[k]))):
                     bad.append(k + '_differs_from_the_vector')
             if got['nsamples'] != v['nsamples']:
@@ -149,12 +151,12 @@ def conformance(tier, rng):
     events, metas = [], {}
     for it in range(150 if tier == 'quick' else 2500):
         bank = random_bank(rng)
-        ccut, wcut = rng.choice([1, 2, 3]), rng.choice([1, 2, 3])
-        got = run_creator(bank, ccut, wcut)
-        ev = {'id': len(events) + 1, 'e': 'traindata', 'ccut': ccut, 'wcut': wcut, 'bank': [flat(t) for t in bank],
-              'raised': got['raised'], 'target': got['target'], 'words': got['words'], 'seen': got['seen'], 'unary': got['unary'], 'nsamples': got['nsamples']}
+        ccut, wcut, acut = rng.choice([1, 2, 3]), rng.choice([1, 2, 3]), rng.choice([1, 2, 3, 5])
+        got = run_creator(bank, ccut, wcut, acut)
+        ev = {'id': len(events) + 1, 'e': 'traindata', 'ccut': ccut, 'wcut': wcut, 'acut': acut, 'bank': [flat(t) for t in bank],
+              'raised': got['raised'], 'target': got['target'], 'words': got['words'], 'seen': got['seen'], 'unary': got['unary'], 'prefixes': got['prefixes'], 'suffixes': got['suffixes'], 'nsamples': got['nsamples']}
         events.append(ev)
-        metas[ev['id']] = {'bank': [' '.join(x['tok']['word'] for x in trees.leaves_of(t)) for t in bank], 'ccut': ccut, 'wcut': wcut, 'raised': got['why']}
+        metas[ev['id']] = {'bank': [' '.join(x['tok']['word'] for x in trees.leaves_of(t)) for t in bank], 'ccut': ccut, 'wcut': wcut, 'acut': acut, 'raised': got['why']}
     rejects, stats = validate('traces/TrainDataTrace.tla', events, 'traindata', per_shard=100)
     from .trace import binding_demo
 
@@ -168,11 +170,21 @@ def conformance(tier, rng):
             e['target'][0][-1] += 1
             return e
 
+    def suffix_count_off(e):
+        if e['suffixes']:
+            e['suffixes'][-1][-1] += 1
+            return e
+
+    def prefix_row_dropped(e):
+        if len(e['prefixes']) > 6:
+            e['prefixes'] = e['prefixes'][:-1]
+            return e
+
     def flip_unary(e):
         if e['unary'] and e['unary'][0][0] != e['unary'][0][1]:
             e['unary'][0][0], e['unary'][0][1] = e['unary'][0][1], e['unary'][0][0]
             return e
-    demo = binding_demo('traces/TrainDataTrace.tla', events, [('one_seen_rule_removed', drop_row), ('one_count_changed', count_off), ('unary_pair_written_child_first', flip_unary)], 'traindata')
+    demo = binding_demo('traces/TrainDataTrace.tla', events, [('one_seen_rule_removed', drop_row), ('one_count_changed', count_off), ('unary_pair_written_child_first', flip_unary), ('one_suffix_count_changed', suffix_count_off), ('one_prefix_row_removed', prefix_row_dropped)], 'traindata')
     dev = {}
     for i, cl in rejects:
         dev.setdefault(cl, []).append(metas[i])
